@@ -53,3 +53,84 @@ PROPS["C10"] = {
     "sampled_only_scope": "ELF load and brk go through the same operations (C13, C15)",
     "assumptions": ["allocation of the requested length succeeds (huge lengths are not generated: the allocator aborts the process)"],
 }
+
+PROPS["C11"] = {
+    "lean_modules": ["AxVerif.Props.C11"],
+    "gen": "C11",
+    "spec_determined": True,
+    "exhaustive": {"quick": [], "thorough": []},
+    "proved_scope": "step()/execute() for every decoder answer, every instruction the model executes, every hook table whose hooks "
+                    "leave the crate-private loop fields alone: finished/limit steps fail unchanged, a successful step counts exactly one "
+                    "instruction, continue == !finished, finish_iff, fuel irrelevance of execute, limit exactness over runs",
+    "sampled_only_scope": "that execute.rs computes what the model computes: random branchy programs, step-by-step and execute runs of the same program, limits 0..40, steps after the end",
+    "assumptions": ["native hooks cannot write executed_instructions_count / max_instructions / code_end_addr (crate-private)"],
+}
+PROPS["C12"] = {
+    "lean_modules": ["AxVerif.Props.C12"],
+    "gen": "C12",
+    "spec_determined": True,
+    "exhaustive": {"quick": [], "thorough": []},
+    "proved_scope": "hook chains over arbitrary hook functions: invoked hooks are a prefix in order, all run unless handled/stop/error, "
+                    "short-circuit lemmas, running flag false after every chain and every step, true inside hooks, other mnemonics silent, "
+                    "before-hooks see next_ip, hook errors fail the step",
+    "sampled_only_scope": "hooks.rs/execute.rs correspondence with scripted hooks (outcomes handled/unhandled/stop/error, register edits) and late registrations",
+    "assumptions": ["hooks cannot write hooks.running (crate-private)", "JS hooks (wasm32) are not run"],
+}
+PROPS["C13"] = {
+    "lean_modules": ["AxVerif.Props.C13"],
+    "gen": "C13",
+    "spec_determined": True,
+    "exhaustive": {"quick": [], "thorough": []},
+    "proved_scope": "brkCall: invariants preserved by every call (ok or failed), brk_query, brk_set, heap_rw, heap_keeps_prefix, no overlap",
+    "sampled_only_scope": "syscalls.rs brk hook = brkCall (histories of query/grow/shrink/below-base with stores and loads, random neighbours)",
+    "assumptions": ["allocation of the requested heap size succeeds"],
+}
+PROPS["C14"] = {
+    "lean_modules": ["AxVerif.Props.C14"],
+    "gen": "C14",
+    "spec_determined": True,
+    "exhaustive": {"quick": [], "thorough": []},
+    "proved_scope": "pipe table functions: conservation law read++queued=written for every pipe over every history (fifo_all_histories), "
+                    "read_bounded, pipes_independent, non_pipe_unhandled, hooks leave non-pipe descriptors untouched",
+    "sampled_only_scope": "syscalls.rs pipe/read/write hooks = model (interleavings over 1-3 pipes, partial reads, foreign descriptors, trailing user hook)",
+    "assumptions": ["descriptor numbers are the host RNG's: a parameter of the model, fed back from the implementation run"],
+}
+PROPS["C17"] = {
+    "lean_modules": ["AxVerif.Props.C17"],
+    "gen": "C17",
+    "spec_determined": True,
+    "exhaustive": {"quick": [], "thorough": []},
+    "proved_scope": "init_stack_program_start: memory invariants of the result (frame, strings, image disjoint), every string in its own fresh "
+                    "NUL-terminated area in order, slot arithmetic, RSP 16-byte aligned (assertion unreachable), stack_top = RSP, space below RSP "
+                    "in [len, len+48]",
+    "sampled_only_scope": "that the POP sequence returns argc, argv pointers, 0, envp pointers, 0 (executed by the correspondence run on both sides)",
+    "assumptions": ["length + frame size < 2^64 and allocation succeeds"],
+}
+PROPS["C18"] = {
+    "lean_modules": ["AxVerif.Props.C18"],
+    "gen": "C18",
+    "spec_determined": True,
+    "exhaustive": {"quick": [], "thorough": []},
+    "proved_scope": "traceAdd fold = independent tracer (order, run-length compression, saturating depth) for every transfer sequence; counts add up; "
+                    "untaken Jcc leaves the trace unchanged; CALL pushes the call stack; indentation bounded",
+    "sampled_only_scope": "trace.rs renderers (invoked after every step, incl. unbalanced returns) and the call-stack pop on RET",
+    "assumptions": [],
+}
+
+NATIVE_SHARDS = {"quick": 8, "thorough": 32}
+for _pid, _asp, _extra in [
+    ("C01", {"regs", "rsp", "rip", "xmm", "mem"}, {}),
+    ("C02", {"flags"}, {}),
+    ("C03", {"rip", "regs", "rsp", "mem", "flags", "outcome"}, {}),
+    ("C04", {"regs", "rsp", "rip", "mem", "outcome", "flags"}, {"stack_shift": True}),
+    ("C05", {"regs", "mem", "outcome"}, {}),
+    ("C06", {"outcome"}, {}),
+]:
+    PROPS[_pid] = {
+        "lean_modules": ["AxVerif.Props.C07"],   # replaced below as the property files appear
+        "gen": _pid,
+        "spec_determined": True,
+        "native": dict({"aspects": _asp}, **_extra),
+        "shards": NATIVE_SHARDS,
+        "exhaustive": {"quick": [], "thorough": []},
+    }
